@@ -33,7 +33,7 @@ class Project:
             self.add_obj()
         self.link_cmd = "link v1"
         self.use_rsp = rnd.random() < 0.3
-        self.rspc = "objs v1"
+        self.rspc = "objs v1 -lfoo -lbar"
         self.multi = rnd.random() < 0.3
         self.stamp = rnd.random() < 0.3
         self.alias = rnd.random() < 0.4
@@ -155,7 +155,14 @@ def history(rnd, idx, tier):
         elif r < 0.56:
             p.link_cmd += " y"; manifest_changed = True
         elif r < 0.60 and p.use_rsp:
-            p.rspc += " z"; manifest_changed = True
+            # the evaluated response-file content grows or shrinks (a shorter content must not
+            # leave the tail of the previous file behind)
+            toks = p.rspc.split(" ")
+            if len(toks) > 1 and rnd.random() < 0.6:
+                p.rspc = " ".join(toks[:-1])
+            else:
+                p.rspc += " -lz%d" % len(toks)
+            manifest_changed = True
         elif r < 0.70 and p.objs():
             # what a compile reports changes together with an edit of its source
             s = rnd.choice(p.objs())
